@@ -292,9 +292,14 @@ func checkC12(p *Prog, r *Report) {
 		if ok {
 			guarded := false
 			for _, g := range Guards(start.Block()) {
-				if bo, isB := g.Cond.(*ssa.BinOp); isB && bo.Op == token.GTR && g.Val {
-					if k, isK := constInt(bo.Y); isK && k == 0 && isApprovalCallbackCount(bo.X, 0) {
-						guarded = true
+				if bo, isB := g.Cond.(*ssa.BinOp); isB {
+					if k, isK := constInt(bo.Y); isK && isApprovalCallbackCount(bo.X, 0) {
+						// "callbacks are registered" in any spelling, on the edge where it holds
+						pos := (bo.Op == token.GTR && k == 0) || (bo.Op == token.NEQ && k == 0) || (bo.Op == token.GEQ && k == 1)
+						neg := (bo.Op == token.EQL && k == 0) || (bo.Op == token.LSS && k == 1) || (bo.Op == token.LEQ && k == 0)
+						if (pos && g.Val) || (neg && !g.Val) {
+							guarded = true
+						}
 					}
 				}
 			}
@@ -566,8 +571,28 @@ func lockOrderOn(p *Prog, r *Report, rule string, prefix string, what string) {
 	r.Floor(rule, what, n, 2)
 }
 
-// isCounterLookup: v reads an integer out of a map keyed by the write's message counter.
+// isCounterLookup: v reads an integer out of a map keyed by the write's message counter — directly, or through an
+// unexported helper of the repository that returns such a read of the tally (recordWriteApproval(ski, counter)).
 func isCounterLookup(v ssa.Value) bool {
+	if c, isCall := v.(*ssa.Call); isCall {
+		callee := c.Call.StaticCallee()
+		if callee == nil || callee.Blocks == nil || callee.Object() == nil || callee.Object().Exported() || callee.Signature.Results().Len() != 1 {
+			return false
+		}
+		n := 0
+		for _, b := range callee.Blocks {
+			ret, isRet := b.Instrs[len(b.Instrs)-1].(*ssa.Return)
+			if !isRet {
+				continue
+			}
+			n++
+			lk, isLk := ret.Results[0].(*ssa.Lookup)
+			if !isLk || lk.CommaOk || !strings.Contains(Path(lk.X), "."+FN("FeatureLocal.writeApprovalReceived")) {
+				return false
+			}
+		}
+		return n > 0
+	}
 	lk, ok := v.(*ssa.Lookup)
 	if !ok || lk.CommaOk {
 		return false
